@@ -60,15 +60,19 @@ def make_sim(kind, built, init, tracer_all=True, block=None):
     rmap, mmap = init_maps(built, init)
     tr = pyrtl.SimulationTrace('all' if tracer_all else None, block=blk)
     dv = init.get('default', 0)
+    kw = {'tracer': tr, 'block': blk}
+    if rmap:
+        kw['register_value_map'] = rmap      # otherwise: the constructor's own default argument
+    if mmap:
+        kw['memory_value_map'] = mmap
+    if dv:
+        kw['default_value'] = dv
     if kind == 'sim':
-        return pyrtl.Simulation(tracer=tr, register_value_map=rmap, memory_value_map=mmap,
-                                default_value=dv, block=blk)
+        return pyrtl.Simulation(**kw)
     if kind == 'fast':
-        return pyrtl.FastSimulation(tracer=tr, register_value_map=rmap, memory_value_map=mmap,
-                                    default_value=dv, block=blk)
+        return pyrtl.FastSimulation(**kw)
     if kind == 'compiled':
-        return pyrtl.CompiledSimulation(tracer=tr, register_value_map=rmap,
-                                        memory_value_map=mmap, default_value=dv, block=blk)
+        return pyrtl.CompiledSimulation(**kw)
     raise HarnessError('sim kind')
 
 
@@ -105,6 +109,31 @@ def foreign_activity(seed):
     return vals
 
 
+def foreign_shadow_sim(seed, name, width):
+    """Another design, in another block, with an Input called `name` of another bitwidth is
+    given its own simulator (of a seeded kind) and stepped: nothing it does may change what
+    the simulators of the design under test accept or compute."""
+    import pyrtl
+    rng = random.Random(seed)
+    old = pyrtl.working_block()
+    fb = pyrtl.Block()
+    w2 = width + rng.choice([3, 8]) if rng.random() < 0.7 or width == 1 else max(1, width - 1)
+    with pyrtl.set_working_block(fb, no_sanity_check=True):
+        a = pyrtl.Input(w2, name)
+        o = pyrtl.Output(w2, 'shadow_out')
+        o <<= a
+    kind = rng.choice(['sim', 'fast', 'fast'])
+    tr = pyrtl.SimulationTrace(block=fb)
+    sim = pyrtl.Simulation(tracer=tr, block=fb) if kind == 'sim' else pyrtl.FastSimulation(tracer=tr, block=fb)
+    v = (1 << w2) - 1
+    sim.step({name: v})
+    if sim.inspect('shadow_out') != v:
+        raise common.ForeignMismatch('shadow design computed %r for %r' % (sim.inspect('shadow_out'), v))
+    if pyrtl.working_block() is not old:
+        raise HarnessError('foreign activity changed the working block')
+    return sim     # kept alive by the caller: two simulators coexist
+
+
 def bad_value(rng, width):
     r = rng.random()
     if r < 0.4:
@@ -127,10 +156,15 @@ def gen_reject_faults(rng, script, ncycles, rate=0.5):
 
 
 def tracelen(sim):
+    """Length of the trace; -1 if the traced wires do not all have the same length (a trace
+    whose columns disagree has no length)."""
     tr = sim.tracer
-    for k in tr.trace:
-        return len(tr.trace[k])
-    return 0
+    lens = {len(tr.trace[k]) for k in tr.trace}
+    if not lens:
+        return 0
+    if len(lens) > 1:
+        return -1
+    return lens.pop()
 
 
 def apply_reject(sim, fault, cyc_inputs, label):
